@@ -20,6 +20,7 @@ let run () =
             let geti k = List.fold_left (fun acc t -> let kl = String.length k in
                                           if String.length t > kl && String.sub t 0 kl = k then (try Some (int_of_string (String.sub t kl (String.length t - kl))) with _ -> acc) else acc) None toks in
             let sT = (match geti "sT=" with Some v -> v | None -> 0) and aT = (match geti "aT=" with Some v -> v | None -> 0) and eS = (match geti "eS=" with Some v -> v | None -> 8) in
+            let eA = (match geti "eA=" with Some v -> v | None -> eS) in
             (* upstream events in order *)
             let rec events l acc = match l with
               | "U+" :: sz :: al :: off :: tl -> events tl (`Up (int_of_string sz, int_of_string al, int_of_string off) :: acc)
@@ -42,12 +43,12 @@ let run () =
                alloc "c@" nc 1;
                if form = "range" then begin
                  if na > 0 && not !failed then begin
-                   alloc "a@" eS eS;
+                   alloc "a@" eS eA;
                    for _ = 2 to na do
                      if not !failed then (let (s', out) = jstep !s (JBump (zi eS)) in (match out with JDone -> s := s' | _ -> failed := true; incr overflow))
                    done
                  end
-               end else alloc "a@" (na * eS) eS;
+               end else alloc "a@" (na * eS) eA;
                alloc "b@" (nb * 16) 16;
                let ctor_ok = List.mem "ctor=ok" toks in
                if !failed then begin
